@@ -1152,6 +1152,11 @@ func genC17(g *G, sc *Scenario, tier string, seed uint64) {
 		sc.Ops = append(sc.Ops, Op{K: "tick", S: "job1", M: map[string]any{}})
 	}
 	sc.Note = fmt.Sprintf("cell n=%d mask=%b maxItems=%d round=%d", n, mask, maxItems, round)
+	if g.P(0.3) {
+		// the same job with a pass-through transform: the handlers then wrap the transform as well as the sink
+		cfg["transform"] = map[string]any{"Type": "JavascriptTransform", "Code": jsTransform("identity")}
+		sc.Note += " transform"
+	}
 }
 
 // genC18: a MultiSource job over a main dataset, 0-2 link datasets and a dependency dataset
